@@ -357,6 +357,30 @@ func genLegalMethod(t *rapid.T, name string, types []typeRef, lbl string) Method
 	case "multicast":
 		m.PerNodeArg = chance(t, 30, lbl+"pernode")
 	}
+	if ct == "multicast" || ct == "unicast" {
+		// one-way methods never use their response type in the generated code; request and
+		// response imported from two different packages is the shape in which a
+		// forgotten import reference shows
+		var imported []typeRef
+		for _, ty := range types {
+			if ty.pkg != 0 {
+				imported = append(imported, ty)
+			}
+		}
+		if len(imported) >= 2 && chance(t, 40, lbl+"importedInOut") {
+			a := imported[rapid.IntRange(0, len(imported)-1).Draw(t, lbl+"impIn")]
+			var others []typeRef
+			for _, ty := range imported {
+				if ty.pkg != a.pkg {
+					others = append(others, ty)
+				}
+			}
+			if len(others) > 0 {
+				b := others[rapid.IntRange(0, len(others)-1).Draw(t, lbl+"impOut")]
+				m.In, m.Out = a.ref, b.ref
+			}
+		}
+	}
 	return m
 }
 
